@@ -13,10 +13,7 @@ def handleEncode (fields : List String) : Option String :=
   | ["encode", kind, hexjson, now, hexpub, urlok] =>
     match kindOfName kind, unhexStr hexjson, parseInt now, unhexStr hexpub with
     | some k, some text, some now, some pub =>
-      match Json.parse text with
-      | none => some "bad-op"
-      | some j =>
-        match unmarshal codecEnv fuel (schemaOf k) j (zero (schemaOf k)) with
+      match (match undump text with | some v => Res.ok v | none => Res.err) with
         | .ok v =>
           let env : EncEnv := { now := now, pub := pub, tokenId := fun _ => jtiPlaceholder,
                                 signB64 := fun _ => [], urlHasScheme := fun _ => urlok == "1" }
@@ -30,7 +27,7 @@ def handleEncode (fields : List String) : Option String :=
             | .ok (v2, hText, pText) =>
               let cd := (zero Gen.V2.ClaimsData).copyFrom (v2.set "jti" (.str [])) claimsDataKeys
               match encodeText codecEnv Gen.V2.ClaimsData cd with
-              | .ok pre => some s!"ok {hexStr hText} {hexStr pText} {hexStr pre}"
+              | .ok pre => some s!"ok {hexStr hText} {hexStr pText} {hexStr pre} {dumpStr v2}"
               | _ => some "unsupported"
         | .err => some "bad-op"
         | .unsupported => some "unsupported"
